@@ -48,6 +48,11 @@ void ds_solo_gate(void);			/* solo thread blocks here until the freeze step */
 int ds_solo_active(void);
 unsigned long ds_solo_yields(void);
 unsigned long ds_my_steps(void);
+/* C17 helper shared by scenarios: ds_solo_op_begin() before / ds_solo_op_end(what, bound) after an operation the calling thread issues after its gate;
+ * fails the case if the operation reached a wait hint or took more than `bound` of its own steps */
+void ds_solo_op_begin(void);
+void ds_solo_op_end(const char *what, long bound);
+int ds_i_am_solo(void);
 
 /* store-buffer introspection for oracles: a call that has returned may still have stores in flight (x86-TSO) */
 int ds_sb_pending(void);
@@ -60,7 +65,7 @@ extern int ds_membarrier_available;
 enum {
 	DSF_FUTEX_SLEEP = 48, DSF_FUTEX_WAKE_HIT = 49, DSF_DELAYED_STORE = 50, DSF_FORWARD = 51,
 	DSF_MEMBARRIER = 52, DSF_FAULT_HIT = 53, DSF_SIGNAL_RUN = 54, DSF_CAS_FAIL = 55,
-	DSF_MUTEX_BLOCK = 56, DSF_STALE_READ = 57, DSF_FORKED = 58, DSF_FROZEN = 59,
+	DSF_MUTEX_BLOCK = 56, DSF_STALE_READ = 57, DSF_FORKED = 58, DSF_FROZEN = 59, DSF_GATE_PASSED = 60, DSF_SOLO_OP_DONE = 61,
 };
 
 typedef void (*ds_scenario_fn)(void);
